@@ -29,6 +29,13 @@ def usage_node(rng, what):
         return {"k": "plural", "rule": rule, "forms": {"one": [{"s": "text", "v": "one"}], "other": [{"s": "var", "name": "count", "fmt": None}, {"s": "text", "v": " many"}]}}
     seg = {"s": "var", "name": "fv", "fmt": copy.deepcopy(FMT_SEGS[what])}
     style = rng.random()
+    if what in ("number", "currency") and style < 0.3:
+        # the formatter sits on the *count* variable of a plural / a range (two families from one variable)
+        cseg = {"s": "var", "name": "count", "fmt": copy.deepcopy(FMT_SEGS[what])}
+        if rng.random() < 0.6:
+            return {"k": "plural", "rule": "cardinal", "forms": {"one": [copy.deepcopy(cseg), {"s": "text", "v": " item"}], "other": [copy.deepcopy(cseg), {"s": "text", "v": " items"}]}}
+        return {"k": "range", "ty": "u32", "branches": [{"specs": [{"r": "exact", "v": 0}], "segs": [{"s": "text", "v": "none"}]},
+                                                        {"specs": None, "fb": "_", "segs": [cseg, {"s": "text", "v": " x"}]}]}
     if style < 0.4:
         return {"k": "tmpl", "segs": [{"s": "text", "v": "v: "}, seg]}
     if style < 0.7:
